@@ -12,6 +12,7 @@ import (
 	"path/filepath"
 	"strings"
 	"sync"
+	"sync/atomic"
 	"syscall"
 	"testing"
 	"time"
@@ -51,6 +52,8 @@ func (f *c12Front) login(via, user, pw string) bool {
 }
 
 func (f *c12Front) close() { go f.web.Close() }
+
+var outageHits int32
 
 var c12Vias = []string{"iface", "basic", "api", "sasl", "ldap"}
 
@@ -308,7 +311,13 @@ func c12Remote(R *vr.Result, rng *rand.Rand, id string) {
 	mh, _ := newWebHandler(mag.GetInterface())
 	var mu sync.Mutex
 	var posts []map[string]any
+	var outage int32
 	msrv := httptest.NewServer(http.HandlerFunc(func(w http.ResponseWriter, r *http.Request) {
+		if atomic.LoadInt32(&outage) == 1 {
+			atomic.AddInt32(&outageHits, 1)
+			http.Error(w, "master unavailable", http.StatusServiceUnavailable)
+			return
+		}
 		body, _ := io.ReadAll(r.Body)
 		var m map[string]any
 		json.Unmarshal(body, &m) //nolint:errcheck
@@ -332,8 +341,58 @@ func c12Remote(R *vr.Result, rng *rand.Rand, id string) {
 	}
 	fr := c12Fronts(sag.GetInterface(), sdir)
 	defer fr.close()
+	// outage phase first: the master answers 503 to more upgrade requests than the upgrader has slots;
+	// afterwards (master healthy) upgradeable logins must reach the master again
+	var outUsers []ovlUser
+	for i := 0; i < 14; i++ {
+		ou := ovlUser{Name: fmt.Sprintf("out%d", i), Pw: fmt.Sprintf("Outage-Password-%d!", i), Set: 1 + (def % 4)}
+		slave.Plant(rng, ou)
+		master.Plant(rng, ou)
+		outUsers = append(outUsers, ou)
+	}
 	sbefore := ref.TakeSnap(slave.Base)
+	atomic.StoreInt32(&outageHits, 0)
+	atomic.StoreInt32(&outage, 1)
+	for _, ou := range outUsers {
+		fr.login("iface", ou.Name, ou.Pw)
+		time.Sleep(3 * time.Millisecond)
+	}
 	expected := 0
+	waitDone := func(want int) bool {
+		deadline := time.Now().Add(20 * time.Second)
+		for {
+			done, drop := 0, 0
+			for _, e := range verifSnapshot() {
+				if e.Kind == "remote.done" {
+					done++
+				}
+				if e.Kind == "remote.drop" {
+					drop++
+				}
+			}
+			if done+drop >= want {
+				return true
+			}
+			if time.Now().After(deadline) {
+				return false
+			}
+			time.Sleep(2 * time.Millisecond)
+		}
+	}
+	if !waitDone(len(outUsers)) {
+		R.Inconcl("outage-phase upgrade requests did not finish within the watchdog")
+		return
+	}
+	R.Count("remote_outage_requests", int(atomic.LoadInt32(&outageHits)))
+	atomic.StoreInt32(&outage, 0)
+	baseDone := 0
+	for _, e := range verifSnapshot() {
+		if e.Kind == "remote.done" || e.Kind == "remote.drop" {
+			baseDone++
+		}
+	}
+	_ = baseDone
+	verifSetLogging(true) // clear: the per-user loop below counts remote.done from zero
 	for k, u := range users {
 		via := c12Vias[k%len(c12Vias)]
 		_, mb, _, _ := master.File(u.Name)
@@ -360,6 +419,16 @@ func c12Remote(R *vr.Result, rng *rand.Rand, id string) {
 			}
 			if done >= expected {
 				break
+			}
+			dropped := 0
+			for _, e := range verifSnapshot() {
+				if e.Kind == "remote.drop" {
+					dropped++
+				}
+			}
+			if dropped > 0 {
+				R.Violate("c12:remote-upgrade-dropped-on-idle-agent", fmt.Sprintf("after an outage of the master (it answered 503 to %d requests) and with no upgrade in flight, the upgrade request for %s was dropped as rate-limited", atomic.LoadInt32(&outageHits), u.Name), id, nil)
+				return
 			}
 			if time.Now().After(deadline) {
 				R.Inconcl("remote upgrade POST did not finish within the 20 s watchdog")
